@@ -488,6 +488,9 @@ class Executor:
         try:
             if sc.get("tree") is not None:
                 self.make_tree(sc["tree"])
+                if sc.get("git_init"):
+                    import subprocess
+                    subprocess.run(["git", "init", "-q"], cwd=self.scratch, capture_output=True, timeout=30)
             if any(op["op"] == "api" for op in sc["ops"]):
                 self.registry = N.Registry()
             for op in sc["ops"]:
@@ -733,6 +736,10 @@ class Executor:
         out = []
         res = {"op": "cli", "argv": op["argv"]}
         ex = self
+        if self.scratch and not os.path.isdir(os.path.join(self.scratch, op.get("cwd", "."))):
+            res["end"] = "invalid-scenario"     # e.g. a minimisation candidate that deleted the cwd
+            res["stdout"] = res["stderr"] = ""
+            return res
         self.by_path = {}
         self.install_open(op.get("faults"))
 
